@@ -98,13 +98,16 @@ def c_comp_used_rand(c, is_rand, declared, mode, level, k, arr):
            "vsc.model.field_array_model.FieldArrayModel.pre_randomize",
            "vsc.model.field_array_model.FieldArrayModel.post_randomize",
            "vsc.model.field_scalar_model.FieldScalarModel.pre_randomize"],
-          lambda tier, seed: [(u, r, k, arr) for u in (False, True) for r in (False, True) for k in (0, 1, 3) for arr in (False, True)])
+          lambda tier, seed: [(u, r, k, arr) for u in (False, True) for r in (False, True) for k in (0, 1, 3)
+                              for arr in (False, "fixed", "randsz", "scalar_randsz")])
 def c_pre_post(c, used, has_if, k, arr):
     from vsc.model.field_composite_model import FieldCompositeModel
     from vsc.model.field_array_model import FieldArrayModel
     log = []
     if arr:
-        o = FieldArrayModel("l", None, False, None, -1, -1, True, False)
+        # lists of objects (fixed and random size) and a random-size scalar list: every element is a child like any other
+        o = FieldArrayModel("l", None, arr == "scalar_randsz", None, 8 if arr == "scalar_randsz" else -1,
+                            False if arr == "scalar_randsz" else -1, True, arr != "fixed")
     else:
         o = FieldCompositeModel("o", True)
     o.rand_if = RandIf(log, "o") if has_if else None
@@ -112,6 +115,8 @@ def c_pre_post(c, used, has_if, k, arr):
     kids = [ChildLog("k%d" % i, log) for i in range(k)]
     for kd in kids:
         o.field_l.append(kd)
+    if arr:
+        o.size.set_val(k)          # the solved size equals the number of elements (nothing to trim)
     outer = object()
     for phase, fn, cb in (("pre", o.pre_randomize, "cb_pre"), ("post", o.post_randomize, "cb_post")):
         log.clear()
